@@ -261,12 +261,14 @@ class CenteredGeneratePerturbationsNoDesignSpace(Contract):
         x, idx, h = c.old.input_values, c.old.input_indices, c.old.step
         P, s = c.result_value
         Pv = C.View(c._new_heap, P, c.st)
-        i, k = z3.Int("i!gp"), z3.Int("k!gp")
+        i, k, q = z3.Int("i!gp"), z3.Int("k!gp"), z3.Int("q!gp")
         rng = z3.And(0 <= i, i < ln(x), 0 <= k, k < idx.n)
         return [
             ("shape", z3.And(ln(Pv, 0) == ln(x), ln(Pv, 1) == 2 * idx.n)),
             ("forward-columns", z3.ForAll([i, k], z3.Implies(rng, el(Pv, i, k) == el(x, i) + z3.If(i == idx.elems[k], h, z3.RealVal(0))))),
-            ("backward-columns", z3.ForAll([i, k], z3.Implies(rng, el(Pv, i, idx.n + k) == el(x, i) - z3.If(i == idx.elems[k], h, z3.RealVal(0))))),
+            # (absolute column index q = n + k: E-matching friendly)
+            ("backward-columns", FA([i, q], z3.Implies(z3.And(0 <= i, i < ln(x), idx.n <= q, q < 2 * idx.n),
+                                                               el(Pv, i, q) == el(x, i) - z3.If(i == idx.elems[q - idx.n], h, z3.RealVal(0))), patterns=[el(Pv, i, q)])),
             ("step-returned", s.term == h),
         ]
 
